@@ -29,20 +29,32 @@ class SubAssoc(object):
         self.sent = []
 
     def get_scu(self, sop_class):
-        def service(data_set, msg_id):
-            from pynetdicom2 import statuses, dimsemessages
-            k = len(self.lab.sub_ops)
-            code = self.lab.sub_outcomes[k] if k < len(self.lab.sub_outcomes) else 0
-            self.lab.sub_ops.append(dict(dest=self.remote_ae, sop_class=str(sop_class),
-                                         instance=str(getattr(data_set, 'SOPInstanceUID', '')), msg_id=msg_id))
-            return statuses.Status(code, dimsemessages.CStoreRSPMessage)
-        return service
+        """The library's own storage_scu on this sub-association: the C-STORE request is really built and
+        encoded (so that values that cannot be encoded surface), the response is the scripted one."""
+        import functools
+        from pynetdicom2 import sopclass
+        from pydicom import uid
+        self.ae = self.lab.ae
+        ctx = self.lab.ctx(1, str(sop_class), IMPLICIT)
+        return functools.partial(sopclass.storage_scu, self, ctx)
 
     def send(self, msg, pc):
+        from pynetdicom2 import dsutils
+        msg.set_length()
+        for _p in msg.encode(pc, 16384):      # encode as Association.send would hand it to the provider
+            pass
+        cs = msg.command_set
         self.lab.sub_sent.append((msg, pc))
+        self.lab.sub_ops.append(dict(dest=self.remote_ae, sop_class=str(cs.AffectedSOPClassUID),
+                                     instance=str(cs.AffectedSOPInstanceUID), msg_id=int(cs.MessageID)))
 
     def receive(self):
-        return (None, None)
+        from pynetdicom2 import dimsemessages
+        k = len(self.lab.sub_ops) - 1
+        code = self.lab.sub_outcomes[k] if 0 <= k < len(self.lab.sub_outcomes) else 0
+        rsp = dimsemessages.CStoreRSPMessage()
+        rsp.status = code
+        return rsp, 1
 
     def release(self):
         self.lab.sub_log.append('release')
